@@ -307,6 +307,14 @@ pub fn c19(cfg: &Cfg, rep: &mut Report) {
         let case_seed = cfg.case_seed(i);
         c19_case(cfg, rep, case_seed);
     }
+    // long streams (tens of thousands of nodes through a relay chain)
+    let long = cfg.get_usize("long_streams", if cfg.thorough { 2 } else if cfg.shard < 4 && !cfg.flag("trace_log") { 1 } else { 0 });
+    for i in 0..long {
+        if rep.too_many() {
+            break;
+        }
+        c19_long(cfg, rep, cfg.case_seed(700_000 + i));
+    }
     // real threads
     let runs = cfg.get_usize("threaded", if cfg.thorough { 400 } else { 60 });
     for i in 0..runs {
@@ -581,4 +589,107 @@ pub fn c19_threaded(_cfg: &Cfg, rep: &mut Report, case_seed: u64) {
         return;
     }
     rep.count("threaded_runs", 1);
+}
+
+/// A long stream: a producer with 12 to 16 variables keeps computing until its table holds tens of thousands of
+/// nodes; relay and last store of a chain are polled at random moments (between producer operations) with
+/// existing, future and "read everything" handles. Sequential model as in `judge`: a poll for handle h grows the
+/// polled table to min(available, h+1) entries (never shrinks it), every table is a prefix of the producer's,
+/// the answer says whether h lies inside the table afterwards, and after a final drain all three are identical.
+pub fn c19_long(cfg: &Cfg, rep: &mut Report, case_seed: u64) {
+    let mut rng = Rng::new(case_seed ^ 0x19);
+    let nvars = rng.range(12, 16);
+    let max_nodes = cfg.get_usize("long_stream_nodes", if cfg.thorough { 500_000 } else { 150_000 });
+    // channel flavours: unbounded, or bounded with more room than the whole stream needs between two polls
+    let roomy = rng.chance(1, 3);
+    let (s1, r1) = if roomy { crossbeam_channel::bounded::<BddNode>(max_nodes * 2 + 1000) } else { crossbeam_channel::unbounded::<BddNode>() };
+    let (s2, r2) = if roomy { crossbeam_channel::bounded::<BddNode>(max_nodes * 2 + 1000) } else { crossbeam_channel::unbounded::<BddNode>() };
+    rep.evaluations += 1;
+    rep.count("long_streams", 1);
+    let replay = |polls: usize, what: &str| json!({"property": "c19", "case_seed": case_seed.to_string(), "long_stream": true, "nvars": nvars, "polls_so_far": polls, "at": what});
+    let r = guarded(SMALL_BUDGET * 50, || -> Result<(usize, usize, usize), String> {
+        let mut prod = Bdd::with_sender(s1);
+        let mut relay = Bdd::with_sender_receiver(s2, r1);
+        let mut last = Bdd::with_receiver(r2);
+        let mut pool: Vec<Term> = (0..nvars).map(|v| prod.variable(adf_bdd::datatypes::Var(v))).collect();
+        let mut polls = 0usize;
+        let mut ops = 0usize;
+        let mut relay_seen = 2usize; // entries the relay has taken (and therefore forwarded)
+        let poll = |who: &mut Bdd, name: &str, available: usize, h: usize, prod_nodes: &[BddNode]| -> Result<usize, String> {
+            let before = who.nodes.len();
+            let found = who.recv(Term(h));
+            let after = who.nodes.len();
+            let want = before.max(available.min(h.saturating_add(1)));
+            if after != want {
+                return Err(format!("{} polled for handle {} with {} entries, {} available: holds {} entries afterwards, model says {}", name, h, before, available, after, want));
+            }
+            if after > prod_nodes.len() || who.nodes[before.min(after)..after] != prod_nodes[before.min(after)..after] {
+                return Err(format!("{}: entries {}..{} differ from the producer's", name, before, after));
+            }
+            if found != (h < after) {
+                return Err(format!("{} polled for handle {}: answered {} but holds {} entries afterwards", name, h, found, after));
+            }
+            Ok(after)
+        };
+        while prod.nodes.len() < max_nodes && ops < 200_000 {
+            let a = if rng.chance(1, 2) { pool[pool.len() - 1 - rng.below(pool.len().min(16))] } else { pool[rng.below(pool.len())] };
+            let b = pool[rng.below(pool.len())];
+            let t = match rng.below(7) {
+                0 | 1 => prod.and(a, b),
+                2 => prod.or(a, b),
+                3 => prod.xor(a, b),
+                4 => prod.imp(a, b),
+                5 => prod.iff(a, b),
+                _ => prod.restrict(a, adf_bdd::datatypes::Var(rng.below(nvars)), rng.bool()),
+            };
+            ops += 1;
+            if pool.len() < 200 {
+                pool.push(t);
+            } else {
+                let k = nvars + rng.below(pool.len() - nvars);
+                pool[k] = t;
+            }
+            if rng.chance(1, 6) {
+                polls += 1;
+                let produced = prod.nodes.len();
+                let h = match rng.below(6) {
+                    0 => usize::MAX,
+                    1 => rng.below(produced),
+                    2 => produced + rng.below(50),
+                    3 => relay.nodes.len() + rng.below(40),
+                    4 => last.nodes.len() + rng.below(40),
+                    _ => produced - 1 - rng.below(produced.min(30)),
+                };
+                if rng.bool() {
+                    relay_seen = poll(&mut relay, "relay", produced, h, &prod.nodes)?;
+                } else {
+                    poll(&mut last, "last store", relay_seen, h, &prod.nodes)?;
+                }
+            }
+        }
+        // final drain: relay first, then the last store
+        let produced = prod.nodes.len();
+        relay_seen = poll(&mut relay, "relay (final drain)", produced, usize::MAX, &prod.nodes)?;
+        poll(&mut last, "last store (final drain)", relay_seen, usize::MAX, &prod.nodes)?;
+        if relay.nodes != prod.nodes || last.nodes != prod.nodes {
+            return Err(format!("after the final drain: producer {} entries, relay {}, last store {}", prod.nodes.len(), relay.nodes.len(), last.nodes.len()));
+        }
+        // the mirrors answer like the producer (unique tables were filled on the way)
+        crate::bddmon::audit_structure(&last.nodes)?;
+        let snap = last.verif_snapshot();
+        if snap.unique.len() != last.nodes.len() - 2 {
+            return Err(format!("last store: unique table has {} entries for {} inner nodes", snap.unique.len(), last.nodes.len() - 2));
+        }
+        Ok((produced, polls, ops))
+    });
+    match r {
+        Ok(Ok((nodes, polls, ops))) => {
+            rep.max("long_stream_max_nodes", nodes as u64);
+            rep.count("long_stream_polls", polls as u64);
+            rep.count("long_stream_producer_operations", ops as u64);
+            rep.nontrivial.insert(crate::common::hash_str(&format!("longstream{}", case_seed)));
+        }
+        Ok(Err(e)) => rep.violation("stream-mirror", format!("long stream: {}", e), replay(0, "see message")),
+        Err(c) => rep.violation(&format!("stream:{}", c.kind()), format!("long stream: {}", c.describe()), replay(0, "panic")),
+    }
 }
